@@ -495,10 +495,7 @@ func main() {
 	rng := rand.New(rand.NewSource(f.Seed))
 	for _, b := range behs {
 		last := b[len(b)-1]
-		fin, _ := last["final"].([]any)
-		if fin == nil {
-			mbt.Die("behaviour without final views")
-		}
+		fin, _ := last["final"].([]any) // absent only when a stored failing case is replayed (--replay)
 		jobs = append(jobs, job{b, fin})
 		// simulated behaviours log the views at every step: also stop at random earlier points
 		for k := 0; k < cfg.Prefix && len(b) > 2; k++ {
